@@ -167,9 +167,18 @@ func (g *gen) e2eRun(name, kind string, addr string, h *e2eHandler, n int) {
 	h.scripted = map[string]*base.Response{}
 	for i := 0; i < n; i++ {
 		req := g.e2eRequest(i)
+		if i == 0 {
+			// a request and a response larger than the 4096-byte buffers between the tunnel and conn.Conn
+			req.Method = base.GetParameter
+			req.Body = g.bytesExcept(5000+g.r.IntN(15000), "")
+		}
 		reqs = append(reqs, req)
 		if req.Method == base.GetParameter || req.Method == base.SetParameter {
-			h.scripted[strconv.Itoa(i+1)] = g.e2eResponse()
+			res := g.e2eResponse()
+			if i == 0 {
+				res.Body = g.bytesExcept(5000+g.r.IntN(15000), "")
+			}
+			h.scripted[strconv.Itoa(i+1)] = res
 		}
 	}
 	h.mu.Unlock()
